@@ -33,6 +33,8 @@ impl Budget {
                                        granted_since_done: r || old(tr).granted_since_done, denied: !r || old(tr).denied, ..*old(tr) }),
     { unimplemented!() }
     #[verifier::external_body]
+    pub fn balance(&self) -> (r: usize) { unimplemented!() }
+    #[verifier::external_body]
     pub fn deposit<Req, Res, E>(&self, Tracked(tr): Tracked<&mut Trace<Req, Res, E>>)
         ensures *final(tr) == (Trace { ev: old(tr).ev.push(Ev::Deposit), ..*old(tr) }),
     { unimplemented!() }
